@@ -20,3 +20,10 @@ var ghostKey func(e Entry) []byte
 //@   trusted
 //@   modifies nothing
 //@   ensures same(result, ghostKey(self))
+
+// DataOwnership.ExclusivelyOwnsTable: a table file may be deleted only on a
+// definite "nobody else needs it": an error never comes with true.
+//@ func DataOwnership.ExclusivelyOwnsTable
+//@   property C09
+//@   trusted
+//@   ensures result1 != nil ==> !result0
